@@ -691,6 +691,12 @@ impl DealerSocket {
       self.core.handle,
       full_message_parts.len()
     );
+    // One deadline for the whole call: being woken while there is still no room must not start
+    // the SNDTIMEO interval afresh.
+    let deadline = match global_sndtimeo {
+      Some(duration) if !duration.is_zero() => Some(tokio::time::Instant::now() + duration),
+      _ => None,
+    };
     loop {
       if !self.core.is_running() {
         return Err(ZmqError::InvalidState(
@@ -707,9 +713,13 @@ impl DealerSocket {
       }
       match global_sndtimeo {
         Some(duration) if duration.is_zero() => return Err(ZmqError::ResourceLimitReached),
-        Some(duration) => {
+        Some(_) => {
           let queue_wait_fut = self.outgoing_queue_activity_notifier.notified();
-          if tokio_timeout(duration, queue_wait_fut).await.is_err() {
+          let timed_out = match deadline {
+            Some(deadline) => tokio::time::timeout_at(deadline, queue_wait_fut).await.is_err(),
+            None => true, // not reached: a positive SNDTIMEO always has a deadline
+          };
+          if timed_out {
             return Err(ZmqError::Timeout);
           }
         }
